@@ -934,6 +934,38 @@ Section Proofs.
     intros Ht Hn. cbn [exec_ucall]. unfold deregister_remote. rewrite Ht, Hn. repeat split.
   Qed.
 
+  (* ---- C14, part 2: an endpoint kept after its connection ended addresses nothing, for good ---- *)
+  Lemma drun_app l1 : forall s l2,
+    drun s (l1 ++ l2) = (fst (drun (fst (drun s l1)) l2), snd (drun s l1) ++ snd (drun (fst (drun s l1)) l2)).
+  Proof.
+    induction l1 as [|l r IH]; intros s l2; cbn [app drun].
+    - cbn [fst snd app]. destruct (drun s l2); reflexivity.
+    - destruct (dstep s l) as [s1 o1]. rewrite (IH s1 l2).
+      destruct (drun s1 r) as [s2 o2]. cbn [fst snd]. destruct (drun s2 l2) as [s3 o3]. cbn [fst snd].
+      rewrite app_assoc. reflexivity.
+  Qed.
+
+  Lemma count_ends_app id a b : count_ends id (a ++ b) = (count_ends id a + count_ends id b)%nat.
+  Proof. unfold count_ends. induction a as [|o r IH]; cbn [app fold_right]; [reflexivity|]. rewrite IH. lia. Qed.
+
+  (* once a connection has ended (Disconnected, or remove() -> true) at some point of a history,
+     then after ANY continuation of that history (new connects, accepts, traffic, other removals)
+     send / is_ready / remove on its id answer ResourceNotFound / None / false, and the adapter's
+     transmit function is not reached: a stale endpoint never addresses a newer connection *)
+  Theorem stale_endpoint_forever a l1 l2 id to len ans :
+    a <= max_adapter gen_layout -> cost_labels (l1 ++ l2) <= max_base gen_layout + 1 ->
+    resource_type gen_layout id = Remote ->
+    count_ends id (snd (drun (dinit a) l1)) = 1%nat ->
+    let s := fst (drun (dinit a) (l1 ++ l2)) in
+    exec_ucall s (USend (id, to) len ans) = (s, [ORet (USend (id, to) len ans) (RSend ResourceNotFound)]) /\
+    exec_ucall s (UIsReady id) = (s, [ORet (UIsReady id) (RIsReady None)]) /\
+    exec_ucall s (URemove id) = (s, [ORet (URemove id) (RRemove false)]).
+  Proof.
+    intros Ha Hc Ht H1 s. apply gone_answers; [exact Ht|].
+    destruct (end_exactly_once a (l1 ++ l2) id Ha Hc Ht) as [Hle Hgone]. apply Hgone.
+    rewrite drun_app in Hle |- *. cbn [snd] in Hle |- *. rewrite count_ends_app in Hle |- *. lia.
+  Qed.
+
   (* C13: the decision table of Driver::send *)
   Lemma send_table s id to len ans :
     snd (exec_ucall s (USend (id, to) len ans)) =
